@@ -582,3 +582,11 @@ func init() {
 func init() {
 	ctl("connection lost but still reported connected", "S-CONNFLAG", "handleDisconnectNotification|rpcClient = nil", "client", "ovsdbClient", "handleDisconnectNotification", kStmt, "o.connected = false", 0, del)
 }
+
+func init() {
+	ctl("getRow looks at the transaction's updates first", "T-SEEALL", "getRow|most recent version first", "updates", "referenceTracker", "getRow", kStmt, "row := rt.referenceUpdates.GetRow(table, uuid)", 0, to("row := rt.updates.GetRow(table, uuid)\nif row != nil {\nreturn row, nil\n}\nrow = rt.referenceUpdates.GetRow(table, uuid)"))
+}
+
+func init() {
+	ctl("an empty projection becomes no row", "S-KEEPKIND", "filterColumns|returns nil", "server", "", "filterColumns", kStmt, "return &new", 0, to("if len(new) == 0 {\nreturn nil\n}\nreturn &new"))
+}
